@@ -317,11 +317,15 @@ class Fn:
             if st["k"] == "A":
                 yield i, si, st
 
-    def all_bodies(self):
+    def all_bodies(self, _seen=None):
         """This function followed by all closures (transitively) defined inside it."""
+        seen = _seen if _seen is not None else set()
+        if id(self) in seen:
+            return []
+        seen.add(id(self))
         out = [self]
         for c in self.closures:
-            out.extend(c.all_bodies())
+            out.extend(c.all_bodies(seen))
         return out
 
     # -- definitions of locals ----------------------------------------------------------
@@ -452,7 +456,7 @@ class Facts:
         for g in self.fn_list:
             for hp in g.j.get("inlined", ()):
                 for f in self.fn_list:
-                    if f.parent == hp and (f.is_closure or f.root) and f not in g.closures:
+                    if f.parent == hp and (f.is_closure or f.root) and f not in g.closures and f is not g:
                         g.closures.append(f)
         self.adts = {a["path"]: a for a in d["adts"]}
         self.impls = d["impls"]
